@@ -136,8 +136,16 @@ class GoText:
         m = re.match(r"^bp\.NewAliasProcessor\((.*)\)$", e)
         if m:
             return ["alias", self.proc_expr(m.group(1), seen)]
-        m = re.match(r"^\((\w+)\((?:0|false)\)\)\.BpProcessor\(\)$", e) or re.match(r"^\((\w+)\{\}\)\.BpProcessor\(\)$", e)
+        m = re.match(r"^\((\w+)\((0|false)\)\)\.BpProcessor\(\)$", e) or re.match(r"^\((\w+)(\{\})\)\.BpProcessor\(\)$", e)
         if m:
+            # the receiver must be a value of the named type: T(false) for a bool type, T(0) for integer / byte / enum types,
+            # T{} for array types (anything else is not a Go expression of that type)
+            decl = re.search(r"^type " + m.group(1) + r" (\S+)", self.text, re.M)
+            if decl:
+                under = decl.group(1)
+                form = "false" if under == "bool" else "0" if re.match(r"^(u?int(8|16|32|64)|byte)$", under) else "{}" if under.startswith("[") else None
+                if form is not None and form != m.group(2):
+                    return ["?receiver-is-not-a-value-of-its-type", m.group(1), under, m.group(2)]
             body = self.method(m.group(1), "BpProcessor")
             if body and m.group(1) not in seen:
                 r = re.search(r"return (.*)$", body.strip(), re.M)
@@ -222,6 +230,13 @@ def check(run: common.Run, drv: common.Driver, rng: random.Random, tier: str) ->
         for k in range(n):
             g = G.SchemaGen(rng, G.GenOpts(shared_nested_names=0.35, twin_scopes=0.3))
             s = g.schema()
+            # field names that read like methods the Go output itself declares (Size(), String()): the struct field, its JSON
+            # tag and every accessor must still be about THAT field
+            for m in s.messages():
+                for fname in ("size", "string"):
+                    if m.fields and rng.random() < 0.15 and not any(f.name == fname for f in m.fields):
+                        rng.choice(m.fields).name = fname
+                        run.count("field-named-like-a-go-method")
             text = G.schema_text(s, rng)
             path = sc.write(f"g{k}.bitproto", text)
             try:
